@@ -8,7 +8,7 @@ HERE = os.path.dirname(os.path.dirname(os.path.abspath(__file__)))
 NOTE = ("go/types + go/ssa (x/tools v0.29.0, used from the local copy checker/third_party/xtools with three added files) "
         "model the program faithfully; the behaviour-preserving normalisation of the SSA the rules read (helper folding "
         "against a reference table, rename resolution, canonical spellings, lifting of read-only captured variables, "
-        "unrolling of loops over small literal tables, scalar replacement of local structs; DESIGN.md section 2a) is part "
+        "capture by value, unrolling of loops over small literal tables, scalar replacement of local structs, argument promotion, constant folding; DESIGN.md section 2a) is part "
         "of the trusted base; documented semantics of the Go "
         "standard library, net/http, crypto/tls, os/exec, text/template and the module's dependencies; one build "
         "configuration (linux/amd64; the module has no build-tagged files). The check decides the named structural "
@@ -57,7 +57,7 @@ m = {
         "name": "crscheck",
         "path": "/verif/checker",
         "serves_properties": sorted(CLAIMED),
-        "kind_free_text": "repository-specific static analyser over go/packages + go/ssa (x/tools v0.29.0): a behaviour-preserving SSA normalisation pass, then CFG path rules, dominance, value-flow slices, who-may-write/call tables, lockset, finite predicate-abstraction decision tables, template/shell-context parsing; in-memory overlay mutants, 112 seeded breaking changes and 161 behaviour-preserving changes as self-tests of the checker (thorough tier)",
+        "kind_free_text": "repository-specific static analyser over go/packages + go/ssa (x/tools v0.29.0): a behaviour-preserving SSA normalisation pass, then CFG path rules, dominance, value-flow slices, who-may-write/call tables, lockset, finite predicate-abstraction decision tables, template/shell-context parsing; in-memory overlay mutants, the seeded breaking changes and the behaviour-preserving changes kept under /verif/seeded and /verif/benign as self-tests of the checker (thorough tier)",
     }],
     "checks": checks,
     "notes": "All checks are static analyses of /repo's current working tree (technique family: static analysis). Exit 2 means the checker could not run (load/type error), never a claim. Genuine defects found and repaired are listed in known_findings.txt as fixed: entries with demonstrations under defects/.",
